@@ -23,7 +23,7 @@ from axioms import Axioms
 from cfgrules import FnInfo, op_locals
 from facts import span_str
 from mirutil import reachable_blocks, successors
-from symterm import Terms, affine, fmt, root_local
+from symterm import Terms, affine, fmt, root_local, linear, lin_sub
 from values import Fl, In
 
 TREE = "weighted::weighted_tree::WeightedTreeIndex::<W>::"
@@ -369,6 +369,111 @@ def run(chk, F, tier):
             else:
                 chk.ok("try-sample-error", key + " -> " + "/".join(sorted(real)))
     chk.floor("try_sample error-clause cases", n_r6, 9)
+    # ---------------------------------------------------------------- R7 get: both children are subtracted unless out of range
+    n_r7 = 0
+    for inst in insts_of(F, TREE + "get"):
+        w = wname(F, inst)
+        T = Terms(F, inst)
+        paths = return_paths(inst)
+        if paths is None:
+            chk.unproved_note("get<%s>: too many paths to enumerate" % w)
+            continue
+        for path in paths:
+            subs = set()
+            for bi in path:
+                t = inst["blocks"][bi]["term"]
+                if t and t["k"] == "call":
+                    fn = t["func"].get("fn", {})
+                    if (fn.get("res_path") or "").endswith("WeightedTreeIndex::<W>::subtotal") or (fn.get("trait") or "").endswith("ops::index::Index"):
+                        a = affine(T.of_operand(t["args"][1]))
+                        if a is not None and a[3] == 1:
+                            subs.add((a[1], a[2]))
+            conds = path_conditions(inst, T, path)
+            for c, nm in ((1, "left"), (2, "right")):
+                n_r7 += 1
+                key = "get<%s> path %s: %s child" % (w, "-".join(map(str, path[:6])), nm)
+                if (2, c) in subs:
+                    chk.ok("get-children", key + " subtracted", nontrivial=(n_r7 <= 4))
+                    continue
+                # is 2i + c >= len implied by a condition taken on the path?
+                implied = False
+                for (rel, d) in conds:
+                    # d = lhs - rhs as a linear form; rel is the relation `d rel 0` known on this path
+                    vs, k0 = d
+                    lens = [v for v in vs if v.startswith("len(")]
+                    others = [v for v in vs if not v.startswith("len(")]
+                    if len(lens) != 1 or len(others) != 1:
+                        continue
+                    sgn = 1 if vs[others[0]] > 0 else -1
+                    if vs[others[0]] * sgn != 2 or vs[lens[0]] * sgn != -1:
+                        continue
+                    # sgn*(2i - len) + k0 rel 0
+                    if sgn == 1 and rel in (">=", ">", "=="):
+                        m = {">=": 0, ">": 1, "==": 0}[rel]      # 2i - len >= m - k0
+                        if c >= k0 - m:
+                            implied = True
+                    if sgn == -1 and rel in ("<=", "<", "=="):
+                        m = {"<=": 0, "<": 1, "==": 0}[rel]      # -(2i - len) + k0 <= -m  ->  2i - len >= k0 + m
+                        if c >= -(k0 + m) * 1 and c + k0 + m >= 0:
+                            implied = True
+                if implied:
+                    chk.ok("get-children", key + " is out of range on this path (condition implies 2i+%d >= len)" % c, nontrivial=True)
+                else:
+                    chk.violation("get-children", "get<%s>:%s" % (w, nm), "get<%s> can return without subtracting the %s child's subtotal although 2i+%d < len is possible "
+                                  "on that path: the result is a subtotal, not the node's own weight" % (w, nm, c), where=span_str(inst.get("span")))
+    chk.floor("get: child obligations (paths x 2 x weight types)", n_r7, 6)
+    # ---------------------------------------------------------------- R8 update: an Ok return without a write only when weight == get(index)
+    n_r8 = 0
+    ORD = {"gt": {">"}, "lt": {"<"}, "ge": {"=", ">"}, "le": {"<", "="}, "eq": {"="}, "ne": {"<", ">"}}
+    FLIP = {"<": ">", ">": "<", "=": "="}
+    for inst in insts_of(F, TREE + "update"):
+        w = wname(F, inst)
+        T = Terms(F, inst)
+        muts = set(mutation_blocks(F, inst))
+        errs = {b for b, _ in err_blocks(inst)}
+        paths = return_paths(inst)
+        if paths is None:
+            chk.unproved_note("update<%s>: too many paths to enumerate" % w)
+            continue
+        for path in paths:
+            ps = set(path)
+            if ps & errs or ps & muts:
+                continue
+            n_r8 += 1
+            allowed = {"<", "=", ">"}
+            for i, bi in enumerate(path[:-1]):
+                b = inst["blocks"][bi]
+                t = b["term"]
+                if t["k"] != "switch" or t["discr"].get("k") not in ("copy", "move"):
+                    continue
+                d = T.body.single_def(t["discr"]["l"])
+                if d is None or d[2] != "call":
+                    continue
+                fn = d[3]["func"].get("fn", {})
+                m = fn.get("method")
+                if m not in ORD or not (fn.get("trait") or "").startswith("core::cmp::Partial"):
+                    continue
+                a0, a1 = (T.of_operand(x) for x in d[3]["args"][:2])
+                isw = lambda t_: t_ == ("var", "weight")              # noqa: E731
+                iso = lambda t_: t_[0] == "call" and t_[1] == "get"   # noqa: E731
+                if isw(a0) and iso(a1):
+                    flip = False
+                elif iso(a0) and isw(a1):
+                    flip = True
+                else:
+                    continue
+                taken_true = not any(v == 0 and tg == path[i + 1] for v, tg in t["targets"])
+                setv = ORD[m] if taken_true else {"<", "=", ">"} - ORD[m]
+                if flip:
+                    setv = {FLIP[x] for x in setv}
+                allowed &= setv
+            key = "update<%s> Ok-path without a write (%s)" % (w, "-".join(map(str, path[:8])))
+            if allowed <= {"="}:
+                chk.ok("update-noop", key + ": only when weight == get(index)", nontrivial=True)
+            else:
+                chk.violation("update-noop", "update<%s>" % w, "update<%s> can return Ok(()) without writing the tree although weight %s get(index) is possible on that path "
+                              "(the comparisons taken do not pin weight == old weight)" % (w, "/".join(sorted(allowed - {"="}))), where=span_str(inst.get("span")))
+    chk.floor("update: Ok-paths without a write", n_r8, 3)
     chk.notes.append("the two assertions at the end of try_sample cannot be discharged for float weights (rounding of the residual): reported under C03/C10 as not decided")
 
 
@@ -392,3 +497,59 @@ def _from_index_mut(fi, local, depth=0):
                     if _from_index_mut(fi, rv["place"]["l"], depth + 1):
                         return True
     return False
+
+
+def return_paths(inst, cap=4000):
+    """All acyclic paths (block lists) from the entry to a `return` terminator; None if there are more than `cap`."""
+    out = []
+    blocks = inst["blocks"]
+
+    def dfs(bi, path, seen):
+        if len(out) > cap:
+            return
+        t = blocks[bi]["term"]
+        if t is None:
+            return
+        if t["k"] == "return":
+            out.append(path + [bi])
+            return
+        for s in successors(t):
+            if s not in seen:
+                dfs(s, path + [bi], seen | {s})
+    import sys
+    sys.setrecursionlimit(max(10000, sys.getrecursionlimit()))
+    dfs(0, [], {0})
+    return None if len(out) > cap else out
+
+
+def path_conditions(inst, T, path):
+    """Integer comparisons decided along a path: list of (rel, lhs - rhs as a linear form) meaning `form rel 0`."""
+    NEG = {"<": ">=", "<=": ">", ">": "<=", ">=": "<", "==": "!=", "!=": "=="}
+    OPS = {"Lt": "<", "Le": "<=", "Gt": ">", "Ge": ">=", "Eq": "==", "Ne": "!="}
+    out = []
+    for i, bi in enumerate(path[:-1]):
+        t = inst["blocks"][bi]["term"]
+        if t["k"] != "switch" or t["discr"].get("k") not in ("copy", "move") or t["discr"]["p"]:
+            continue
+        d = T.body.single_def(t["discr"]["l"])
+        if d is None or d[2] == "call":
+            continue
+        rv = d[3]["rv"]
+        neg = False
+        if rv["k"] == "unop" and rv["op"] == "Not" and rv["a"].get("k") in ("copy", "move"):
+            d2 = T.body.single_def(rv["a"]["l"])
+            if d2 is None or d2[2] == "call":
+                continue
+            rv = d2[3]["rv"]
+            neg = True
+        if rv["k"] != "binop" or rv["op"] not in OPS:
+            continue
+        la, lb = linear(T.of_operand(rv["a"])), linear(T.of_operand(rv["b"]))
+        if la is None or lb is None:
+            continue
+        taken_true = not any(v == 0 and tg == path[i + 1] for v, tg in t["targets"])
+        rel = OPS[rv["op"]]
+        if taken_true == neg:
+            rel = NEG[rel]
+        out.append((rel, lin_sub(la, lb)))
+    return out
